@@ -184,7 +184,18 @@ def check(pid, tier, replay_only=None):
             for f in vr['functions']:
                 fnprops[f['name']] = cfg.get('fn_props', {}).get(f['name'], [pid])
             for f in vr['failures']:
-                if f['kind'] != 'verification' or f['function'] is None:
+                if f['kind'] != 'verification':
+                    continue
+                if f['function'] is None:
+                    # lemma over captured source text: counts only through an explicit clause tag
+                    tags = _tags_for_failure(vr['gen_lines'], f, [])
+                    if not tags:
+                        undecided.append('verus unit %s: proof obligation outside extracted code failed: %s' % (vr['unit'], f['message']))
+                        continue
+                    f['function'] = '(lemma over captured source text)'
+                    f['props'] = sorted(tags)
+                    if pid in tags:
+                        verus_viol.append((vr['unit'], f))
                     continue
                 tags = _tags_for_failure(vr['gen_lines'], f, unit_fn_props(vr['unit'], f['function']))
                 f['props'] = sorted(tags)
